@@ -24,6 +24,14 @@ struct C05 : RBase {
     return k;
   }
   bool with_probe() const override { return true; }
+  // units run after the program in the same context: a variable returned at top level keeps its value for the next unit
+  std::vector<std::vector<json>> extra_units(Rng& r, const json&, GenProgram&) const override {
+    std::vector<std::vector<json>> U; if (!r.chance(0.5)) return U;
+    auto look = [&]() { return std::vector<json>{print({slit("after return: sa="), var("sa", "str"), slit(" ta#"), mth("count", var("ta", "tabint"), {}), slit(" ua="), var("ua", "tup"), slit(" ia="), var("ia")})}; };
+    int n = (int)r.range(1, 3);
+    for (int i = 0; i < n; ++i) { switch (r.below(4)) { case 0: U.push_back({ret(var("sa", "str"))}); break; case 1: U.push_back({ret(var("ta", "tabint"))}); break; case 2: U.push_back({ret(var("ua", "tup"))}); break; default: U.push_back({ret(var("ia"))}); break; } U.push_back(look()); }
+    return U;
+  }
   void extra_statements(Rng& r, json& a, GenProgram& p) const override {
     json& F = a["funcs"]; json& B = a["body"];
     F.push_back(func("mutt", {{"t", "tabint"}}, "int", {doit(mth("put", var("t", "tabint"), {ilit(0), ilit(77)}, "tabint")), doit(mth("concat", var("t", "tabint"), {ilit(78)}, "tabint")), ret(mth("at", var("t", "tabint"), {ilit(0)}))}));
@@ -35,12 +43,25 @@ struct C05 : RBase {
     { json isn = json{{"k", "bi"}, {"f", "isnull"}, {"args", json::array({var("lc", "str")})}, {"t", "bool"}};
       F.push_back(func("unset", {{"k", "int"}}, "bool", {iff(bin("==", var("k"), ilit(1), "bool"), {let("lc", slit("set"))}), print({slit("unset:"), isn, isn}), iff(isn, {print({slit("still unset")})}), ret(isn)})); }
     B.push_back(let("ta", tab(ilit(3), ilit(1)))); B.push_back(let("sa", slit("abc"))); B.push_back(let("ua", tup({ilit(1), slit("x")}))); B.push_back(let("ia", ilit(5)));
-    B.push_back(let("tb", var("ta", "tabint"))); B.push_back(let("sb", var("sa", "str"))); B.push_back(let("ub", var("ua", "tup")));
+    B.push_back(let("tb", var("ta", "tabint"))); B.push_back(let("sb", var("sa", "str"))); B.push_back(let("ub", var("ua", "tup"))); B.push_back(let("ts0", tab(ilit(2), slit("e"), "tabstr")));
     auto show = [&]() { B.push_back(print({slit("ta="), mth("at", var("ta", "tabint"), {ilit(0)}), mth("count", var("ta", "tabint"), {}), slit(" tb="), mth("at", var("tb", "tabint"), {ilit(0)}), mth("count", var("tb", "tabint"), {}), slit(" sa="), var("sa", "str"), slit(" sb="), var("sb", "str"), slit(" ua="), var("ua", "tup"), slit(" ub="), var("ub", "tup"), slit(" ia="), var("ia")})); };
     int pid = p.fault_points;
     int n = (int)r.range(6, 20);
     for (int i = 0; i < n; ++i) {
-      switch (r.below(27)) {
+      switch (r.below(32)) {
+      case 27: // a forall iterator read repeatedly after its loop has ended (it is a null of the element type then)
+        B.push_back(let("tb", var("ta", "tabint"))); B.push_back(forall("z7", var("tb", "tabint"), {let("z7", bin("+", var("z7"), ilit(1)))}));
+        B.push_back(print({slit("z7:"), json{{"k", "bi"}, {"f", "isnull"}, {"args", json::array({var("z7")})}, {"t", "bool"}}, json{{"k", "bi"}, {"f", "isnull"}, {"args", json::array({var("z7")})}, {"t", "bool"}}, json{{"k", "bi"}, {"f", "isnull"}, {"args", json::array({bin("+", var("z7"), ilit(1))})}, {"t", "bool"}}})); break;
+      case 28: // assignment through a forall iterator from a variable, a constant and an element: the source keeps its value
+        B.push_back(let("tb", var("ta", "tabint"))); B.push_back(let("ic", ilit(r.range(30, 39))));
+        B.push_back(forl("r7", ilit(1), ilit(2), {forall("z8", var("tb", "tabint"), {let("z8", r.chance(0.4) ? var("ic") : r.chance(0.5) ? ilit(7) : mth("at", var("ta", "tabint"), {ilit(0)}))}), print({slit("ic="), var("ic"), slit(" tb0="), mth("at", var("tb", "tabint"), {ilit(0)})})})); break;
+      case 29: { // a string constant of the program text as the receiver of an in-place method, evaluated repeatedly
+        json recv = slit("lit"); json st;
+        switch (r.below(4)) { case 0: st = print({mth("concat", recv, {r.chance(0.5) ? slit("!") : ilit(33)}, "str")}); break; case 1: st = print({mth("insert", recv, {ilit(0), r.chance(0.5) ? ilit(65) : slit("ab")}, "str")}); break;
+                              case 2: st = print({mth("put", recv, {ilit(0), ilit(66)}, "str")}); break; default: st = print({mth("delete", recv, {ilit(0)}, "str")}); break; }
+        B.push_back(forl("r8", ilit(1), ilit(3), {st})); break; }
+      case 30: B.push_back(let("sb", var("sa", "str"))); B.push_back(forall("z9", var("ts0", "tabstr"), {let("z9", r.chance(0.5) ? var("sa", "str") : slit("const"))})); B.push_back(print({slit("ts0="), mth("at", var("ts0", "tabstr"), {ilit(0)}, "str")})); break;
+      case 31: B.push_back(doit(mth("insert", var("sa", "str"), {ilit(0), ilit(r.range(65, 90))}, "str"))); break;
       case 22: { // the null constants of the program text, read repeatedly by built-ins that recycle the storage of their operand
         json nl{{"k", "null"}, {"t", ""}}; json ni{{"k", "null"}, {"t", "int"}}; json ns{{"k", "null"}, {"t", "str"}};
         auto isn = [](json e) { return json{{"k", "bi"}, {"f", "isnull"}, {"args", json::array({e})}, {"t", "bool"}}; };
